@@ -5,6 +5,7 @@ import (
 	"context"
 	"net"
 	"sync"
+	"time"
 
 	"github.com/honeytrap/honeytrap/pushers"
 	"github.com/honeytrap/honeytrap/services"
@@ -31,6 +32,8 @@ type stubHubT struct {
 	calls []*stubCall
 	// echo: when set, stubs write back what they read (C16)
 	Echo bool
+	// PreReadMs: stubs wait this long (fake clock) before their first read
+	PreReadMs int
 	// ReadSize is the buffer size stubs read with (services differ: byte-wise banner reads,
 	// fixed-size headers, large buffers)
 	ReadSize int
@@ -44,6 +47,7 @@ func (h *stubHubT) reset() {
 	h.mu.Lock()
 	h.calls = nil
 	h.Echo = false
+	h.PreReadMs = 0
 	h.Bus = nil
 	h.ReadSize = 0
 	h.mu.Unlock()
@@ -81,7 +85,11 @@ func (s *stubService) Handle(ctx context.Context, conn net.Conn) error {
 	stubHub.calls = append(stubHub.calls, c)
 	echo := stubHub.Echo
 	rs := stubHub.ReadSize
+	pre := stubHub.PreReadMs
 	stubHub.mu.Unlock()
+	if pre > 0 {
+		time.Sleep(time.Duration(pre) * time.Millisecond)
+	}
 	if rs <= 0 {
 		rs = 4096
 	}
